@@ -52,6 +52,7 @@ def run(ctx):
              "(finite-domain exploration over TrialState x TrialState)")
     _cas.cas_rule(ctx, "R04.1")
     _cas.cas_atomic_rule(ctx, "R04.1")
+    _cas.cas_rdb_atomic_rule(ctx, "R04.1")
     _cas.cas_dialect_rule(ctx, "R04.1")
 
     # ------------------------------------------------------------ R04.2 claim result checked
@@ -86,6 +87,28 @@ def run(ctx):
                           f"having returned True (a trial already claimed by another worker would be run twice)",
                   how="every non-None return is dominated by the True edge of the set_trial_state_values test",
                   witness=wit, where=where(f, c))
+        # the other way of losing the race: the winner has already *finished* the trial, and the storage contract answers a write to a
+        # finished trial with UpdateFinishedTrialError (documented Raises of set_trial_state_values) - the claim loop must move on too
+        base_doc = ast.get_docstring(p.cls("optuna.storages._base.BaseStorage").methods["set_trial_state_values"].node) or ""
+        if "UpdateFinishedTrialError" in base_doc:
+            pmc = parent_map(f.node)
+            hs = []
+            child = c
+            while id(child) in pmc:
+                par = pmc[id(child)]
+                if isinstance(par, (ast.FunctionDef, ast.AsyncFunctionDef)):
+                    break
+                if isinstance(par, ast.Try) and any(child is b for b in par.body):
+                    hs.extend(par.handlers)
+                child = par
+            caught = [h for h in hs if h.type is None or {"UpdateFinishedTrialError", "OptunaError", "Exception", "BaseException", "RuntimeError"}
+                      & {(dotted(x) or "").split(".")[-1] for x in ([h.type] if not isinstance(h.type, ast.Tuple) else h.type.elts)}]
+            moves_on = bool(caught) and not any(isinstance(x, ast.Raise) for x in ast.walk(caught[0]))
+            ctx.check(moves_on, "R04.2", f.short, "claim-lost-to-a-finished-trial-moves-on",
+                      message=f"{f.name}: the claim `{norm(c)[:60]}` can raise UpdateFinishedTrialError - another worker claimed AND finished the listed WAITING trial "
+                              f"before this call - and nothing around it catches that: ask()/optimize of the losing worker dies with an internal error instead of "
+                              f"taking the next queued trial or sampling a new one",
+                      how="the claim sits in a try body with a non-re-raising `except UpdateFinishedTrialError` arm", where=where(f, c))
         # the candidates come from a WAITING listing of the same study
         loops = [n for n in own_nodes(f.node) if isinstance(n, ast.For) and any(x is c for x in ast.walk(n))]
         ok = False
